@@ -676,6 +676,8 @@ class Renderer:
         if r.get('bind'):
             hdr += [T(r['bind'], PUNCT, ' ')]
         self.emit(hdr, level, None)
+        for ln in r.get('doc_raw') or []:      # verbatim lines right after the header (leading comments = docstring)
+            self.raw(ln)
         for u in r.get('uses') or []:
             self.emit(self.use_tokens(u), level + 1, None)
         if r.get('implicit_none', True):
